@@ -50,7 +50,8 @@ SnOf ==
             tmpl |-> "t2", paused |-> FALSE, deleting |-> del, histLimit |-> 10, selectorOK |-> TRUE, gen |-> 2,
             status |-> StatusRec, claims |-> <<>>],
    pods |-> PodSeq, revs |-> StdRevs, pvcs |-> {}, fresh |-> [exists |-> TRUE, sameUid |-> TRUE, deleting |-> del, rvSame |-> TRUE],
-   cacheIntact |-> TRUE]
+   cacheIntact |-> TRUE,
+   apods |-> ApiFromCache(PodSeq), apvcs |-> {}, faults |-> <<>>]
 
 Init == /\ rep \in 0..MaxRep /\ slots \in SUBSET Ords /\ pol \in {"OrderedReady", "Parallel"}
         /\ strat \in Strats /\ same \in BOOLEAN /\ mode \in {"zero", "census"}
@@ -67,6 +68,7 @@ I_C04 == C04(SnOf, M.calls)
 I_C05 == C05(SnOf, M.calls)
 I_C06 == C06(SnOf, M.calls)
 I_C07 == C07(SnOf, M.calls)
+I_C09 == C09(SnOf, M.calls, M.res)
 I_C10 == C10(SnOf, M.calls, M.res)
 I_C11 == C11(SnOf, M.calls)
 I_C12 == C12(SnOf, M.calls)
